@@ -171,6 +171,7 @@ def _run_variant(case: dict, with_ro: bool, trace: bool):
                     ctx.run_step(step['alt'], i)
                 continue
             cmds = ctx.run_step(step, i)
+            ctx.quiesce()           # a stalled lock may outlast the horizon
             if step.get('obs_synced'):
                 obs_synced = True
                 for cl in ctx.clients.values():
